@@ -229,6 +229,7 @@ Inductive nfun : Type :=
 | FFail (key : string) (failAt : Z)
 | FJoinV (key : string)        (* map -> V                                       *)
 | FM (key : string)            (* map -> {key: render(input) ++ options}         *)
+| FConst (key : string)        (* map -> {key: "const"}: the node hands out the SAME long-lived map object on every run *)
 | FStr (key : string)          (* string -> key(input) ++ options                *)
 | FStrT (key : string)         (* string -> key[ ++ input with a -> A            *)
 | FRender (key : string)       (* map -> its rendering                           *)
@@ -240,7 +241,7 @@ Inductive nfun : Type :=
 | FSubYf                       (* H += ">sub.yf{sorted log}"                     *)
 | FOj                          (* joinV "oj", H += "{outer:log}"                 *)
 | FWfL | FWfR | FWfM           (* the three nodes of the workflow                *)
-| FWfC                         (* its guard node: rejects the input "a4"         *)
+| FWfC                         (* its guard node: rejects the input "a4", panics on "a5" *)
 | FZ                           (* H += ">z{log|sum}"                             *)
 | FRec                         (* calls the graph it belongs to again (re-entrant run) *)
 | FModel (role : string) (ntools : nat)   (* the scripted fake chat model                *)
@@ -675,6 +676,7 @@ Definition apply_comp (f : nfun) (vals : list string) (v : val) (st : option stv
       else (OK (VR id n lim (h ++ ">" ++ key)), st, ["n:" ++ key])
   | FJoinV key, _ => (join_v key v, st, ["n:" ++ key])
   | FM key, VM _ => (OK (VM [(key, VS (render v ++ ostr vals))]), st, ("n:" ++ key) :: optev key vals)
+  | FConst key, VM _ => (OK (VM [(key, VS "const")]), st, ["n:" ++ key])
   | FStr key, VS s => (OK (VS (key ++ "(" ++ s ++ ")" ++ ostr vals)), st, ("n:" ++ key) :: optev key vals)
   | FStrT key, VS s => (OK (VS (key ++ "[" ++ replace_aA s)), st, ["n:" ++ key])
   | FRender key, VM _ => (OK (VS (render v)), st, ["n:" ++ key])
@@ -712,7 +714,9 @@ Definition apply_comp (f : nfun) (vals : list string) (v : val) (st : option stv
       end
   | FWfR, VS s => (OK (VM [("v", VS ("r(" ++ s ++ ")"))]), st, ["n:r"])
   | FWfC, VS s =>
-      if String.eqb s "a4" then (Fail "node:c", st, ["n:c"]) else (OK (VS ("c(" ++ s ++ ")")), st, ["n:c"])
+      if String.eqb s "a4" then (Fail "node:c", st, ["n:c"])
+      else if String.eqb s "a5" then (Fail "panic", st, ["n:c"])     (* the guard panics: recovered by the executor, the task's error *)
+      else (OK (VS ("c(" ++ s ++ ")")), st, ["n:c"])
   | FWfM, VM kv =>
       match alist_get "ID" kv, alist_get "X" kv, alist_get "Y" kv, alist_get "S" kv, alist_get "C" kv with
       | Some (VS id), Some (VS x), Some (VS y), Some (VS s), Some (VS c) =>
